@@ -3,7 +3,7 @@
    the OCaml natives); N, Z, positive and nat stay the extracted inductives.  No Extract Constant
    or Extract Inductive of our own. *)
 From DV Require Import Model.Base Model.Nfa Model.Helper Model.BwBuild Model.Utf8 Model.CwBuild
-     Model.BwSearch Model.CwSearch Model.Api Model.Ser Model.Spec Model.Cli Model.Cert.
+     Model.BwSearch Model.CwSearch Model.Api Model.Ser Model.Spec Model.Cli Model.CliRaw Model.Cert.
 Require Extraction.
 Require Import ExtrOcamlBasic.
 Extraction Language OCaml.
@@ -22,5 +22,5 @@ Extraction "extracted/model.ml"
   cw_find_iter cw_find_overlapping_iter cw_find_overlapping_no_suffix_iter cw_leftmost_find_iter
   spec_overlapping spec_find spec_nosuffix spec_lml spec_lmf effective distinct_nonempty_prefixes
   spec_build_error spec_build_error_conv
-  cli_main cli_patterns buf_lines covered
+  cli_main cli_main_raw cli_patterns buf_lines covered
   bw_cert_ok bw_cert_count bw_ranges_b cw_ranges_b bw_safe_b bw_stats_ok bw_lm_cert_ok cw_cert_ok cw_safe_b cw_lm_cert_ok.
